@@ -19,6 +19,12 @@
   members, so `proc == realInvoked` iff the two ORDERS agree).  With it `preds_hold` is proved as stated;
   without it `preds_hold_partial` shows that all other predicates (C01, C02, C03, C04, C06, C07,
   C08, C10 and the remaining C09 clauses) hold of every model run.
+
+  Later additions to `predFut` covered here: the C07 note on the declarations at `invoke` (nothing
+  that conflicts with a failed function starts after the failure; by `GoodCtx.ordered`), the C10
+  work-conservation note at `q` (idle below the limit ⇒ every ready function started;
+  `limit_work_conserving`, proved in `Proofs/UIdle.lean`), and the `noReturnNotes` of `panic` /
+  `livelock` (no model step shows these events).
 -/
 import FnGraphVerif.Proofs.QInvoke
 import FnGraphVerif.Proofs.QRet
@@ -205,13 +211,13 @@ theorem ok_obsRun_Q : ∃ s, ObsRun (xDiamond exCfg_F) (init exCfg_F) okEvents_Q
 
 theorem ok_runOk_Q : RunOk okEvents_Q := ⟨by decide⟩
 
-/-- the theorem applied: all 46 notes of this run are ok -/
+/-- the theorem applied: all 50 notes of this run are ok -/
 example : ∀ n ∈ (predRun (xDiamond exCfg_F) {} okEvents_Q).2, n.ok = true := by
   obtain ⟨s, hs⟩ := ok_obsRun_Q
   exact preds_hold (xDiamond_good exCfg_F rfl rfl (by intro h; cases h)) hs ok_runOk_Q
 
 set_option maxRecDepth 100000 in
-example : (predRun (xDiamond exCfg_F) {} okEvents_Q).2.length = 46 := by decide
+example : (predRun (xDiamond exCfg_F) {} okEvents_Q).2.length = 50 := by decide
 
 /-- (2) `FinishCurrent`: the signal arrives at a quiescent point; one more function (2) is handed
     out as `Interrupted(Some 2)` and started, the call returns `Interrupted` with 1 and 3 not
@@ -237,7 +243,7 @@ example : ∀ n ∈ (predRun (xDiamond intrCfg_Q) {} intrEvents_Q).2, n.ok = tru
   exact preds_hold (xDiamond_good intrCfg_Q rfl rfl (by intro h; cases h)) hs ⟨by decide⟩
 
 set_option maxRecDepth 100000 in
-example : (predRun (xDiamond intrCfg_Q) {} intrEvents_Q).2.length = 27 := by decide
+example : (predRun (xDiamond intrCfg_Q) {} intrEvents_Q).2.length = 29 := by decide
 
 /-- (3) `try_fold` (sequential, short-circuit): function 0 succeeds, function 2 fails, the call
     returns `Err 2` (exercises the C07 first-error predicate and C10 with limit 1) -/
@@ -257,5 +263,105 @@ theorem short_obsRun_Q : ∃ s, ObsRun (xDiamond shortCfg_Q) (init shortCfg_Q) s
 example : ∀ n ∈ (predRun (xDiamond shortCfg_Q) {} shortEvents_Q).2, n.ok = true := by
   obtain ⟨s, hs⟩ := short_obsRun_Q
   exact preds_hold (xDiamond_good shortCfg_Q rfl rfl (fun _ => rfl)) hs ⟨by decide⟩
+
+/-- (4) limit 2: `q` observations below the limit (one function in flight: after the root started,
+    after `2` returned while `1` runs, after `3` started) and at the limit (`1`, `2` running);
+    exercises the C10 work-conservation note "idle below limit" three times and the C10 "limit blocks
+    completion" note four times -/
+def limCfg_U : Cfg := { exCfg_F with limit := some 2 }
+
+def limSchedule_U : List OA :=
+  [.act .schedPoll, .act (.invoke 0), .act .schedPoll, .q, .act (.finish 0 true), .act .queuerRecv,
+   .act .schedPoll, .act .schedPoll, .act (.invoke 2), .act (.invoke 1), .q,
+   .act (.finish 2 true), .act .queuerRecv, .act .schedPoll, .q, .act (.finish 1 true), .act .queuerRecv,
+   .act .schedPoll, .act (.invoke 3), .act .schedPoll, .q, .act (.finish 3 true), .act .queuerRecv,
+   .act .schedPoll, .act .schedEnd, .act .queuerEnd, .act .ret]
+
+def limEvents_U : List Ev :=
+  [.handout 0, .invoke 0, .q, .fin 0 true, .handout 2, .handout 1, .invoke 2, .invoke 1, .q, .fin 2 true,
+   .q, .fin 1 true, .handout 3, .invoke 3, .q, .fin 3 true, .retOutcome true [0, 2, 1, 3] [] [] "cont"]
+
+set_option maxRecDepth 100000 in
+theorem lim_obsRun_U : ∃ s, ObsRun (xDiamond limCfg_U) (init limCfg_U) limEvents_U s :=
+  obsRun_of_obsEvents' (l := limSchedule_U) (by decide)
+
+example : ∀ n ∈ (predRun (xDiamond limCfg_U) {} limEvents_U).2, n.ok = true := by
+  obtain ⟨s, hs⟩ := lim_obsRun_U
+  exact preds_hold (xDiamond_good limCfg_U rfl rfl (by intro h; cases h)) hs ⟨by decide⟩
+
+set_option maxRecDepth 100000 in
+/-- the work-conservation note is emitted at the three `q` points below the limit (not at the one
+    where both `1` and `2` run) -/
+example : ((predRun (xDiamond limCfg_U) {} limEvents_U).2.filter (fun n =>
+    n == .prop "C10" "q idle below limit 2 with a ready function unstarted" true)).length = 3 := by decide
+
+/-- (5) a failure (collect mode): `2` fails while `1` (handed out before) has not started yet; `1`
+    starts after the failure — it does not conflict with `2` (both only read) — and `3`, which is
+    ordered after `2`, never starts (exercises both C07 notes at `invoke` with a non-empty list of
+    failed functions, the C07 "never returns after a failure" note at `q`, C07 errors) -/
+def failCfg_U : Cfg := { exCfg_F with errMode := .collect }
+
+def failSchedule_U : List OA :=
+  [.act .schedPoll, .act (.invoke 0), .act .schedPoll, .q, .act (.finish 0 true), .act .queuerRecv,
+   .act .schedPoll, .act .schedPoll, .act (.invoke 2), .act (.finish 2 false), .act (.invoke 1),
+   .act .queuerEnd, .act .schedPoll, .q, .act (.finish 1 true), .act .schedEnd, .act .ret]
+
+def failEvents_U : List Ev :=
+  [.handout 0, .invoke 0, .q, .fin 0 true, .handout 2, .handout 1, .invoke 2, .fin 2 false, .invoke 1, .q,
+   .fin 1 true, .retOutcome false [0, 2, 1] [3] [2] "break"]
+
+set_option maxRecDepth 100000 in
+theorem fail_obsRun_U : ∃ s, ObsRun (xDiamond failCfg_U) (init failCfg_U) failEvents_U s :=
+  obsRun_of_obsEvents' (l := failSchedule_U) (by decide)
+
+example : ∀ n ∈ (predRun (xDiamond failCfg_U) {} failEvents_U).2, n.ok = true := by
+  obtain ⟨s, hs⟩ := fail_obsRun_U
+  exact preds_hold (xDiamond_good failCfg_U rfl rfl (by intro h; cases h)) hs ⟨by decide⟩
+
+set_option maxRecDepth 100000 in
+/-- the new C07 note is not trivially true: had `3` (which writes what `2` reads) started after the
+    failure of `2`, the note would be false -/
+example : (predFut (xDiamond failCfg_U)
+    { realInvoked := [0, 2, 1], realEnded := [0, 2, 1], realEndedOk := [0, 1], realFailed := [2] }
+    (.invoke 3)).2.filter (fun n => !n.ok && n.property == "C07") =
+    [.prop "C07" "invoke 3" false, .prop "C07" "invoke 3 (conflicts with a failed function)" false] := by
+  decide
+
+/-! ### C10: a limit is work-conserving (the model fact behind the "idle below limit" note) -/
+
+/-- **C10** (work conservation), re-exported from `Proofs/UIdle.lean`: limit `l+1`, not
+    sequential, no interrupt, no failure: at a quiescent point with fewer than `l+1` functions in
+    flight every function whose scheduling-graph predecessors have all returned ok has been handed
+    out and invoked.  (`idle_under_limit_all_started` is the general form with `underLimit c s`,
+    of which C06 `maximal_progress` is the unlimited instance.) -/
+theorem limit_work_conserving {c : Cfg} {s : PState} (hc : GoodCfg c) (hr : Reachable c s)
+    (hq : Quiescent c s) (hseq : c.sequential = false) {l : Nat} (hlim : c.limit = some (l + 1))
+    (hlt : s.inflight.length < l + 1) (hni : s.im.sent = false ∧ s.im.recv = false)
+    (hf : s.failed = []) {v : Nat} (hv : v < c.n) (hp : ∀ p ∈ parents c.D v, p ∈ s.endedOk) :
+    v ∈ s.handedOut ∧ v ∈ s.invoked :=
+  idle_below_limit_all_started hc hr hq hseq hlim hlt hni hf hv hp
+
+/-- the same as the monitor evaluates it: `allBlockedB` of the started and ok-ended functions -/
+theorem limit_work_conserving_allBlocked {c : Cfg} {s : PState} (hc : GoodCfg c) (hr : Reachable c s)
+    (hq : Quiescent c s) (hseq : c.sequential = false) {l : Nat} (hlim : c.limit = some (l + 1))
+    (hlt : s.inflight.length < l + 1) (hni : s.im.sent = false ∧ s.im.recv = false)
+    (hf : s.failed = []) : allBlockedB c s.invoked s.endedOk = true := by
+  unfold allBlockedB
+  rw [List.all_eq_true]
+  intro v hv
+  rw [List.mem_range] at hv
+  simp only [Bool.or_eq_true, decide_eq_true_eq, List.any_eq_true]
+  by_cases hall : ∀ p ∈ parents c.D v, p ∈ s.endedOk
+  · exact Or.inl (idle_below_limit_all_started hc hr hq hseq hlim hlt hni hf hv hall).2
+  · right
+    simp only [not_forall] at hall
+    obtain ⟨p, hp, hpe⟩ := hall
+    exact ⟨p, hp, hpe⟩
+
+/- non-vacuity: limit 2, `0` and `2` returned, `1` running (`Proofs/LiveExample.lean`) -/
+set_option maxRecDepth 100000 in
+example : allBlockedB (exC_G (some 2)) exS2_G.invoked exS2_G.endedOk = true :=
+  limit_work_conserving_allBlocked (l := 1) (exC_good_G _) exS2_reach_G (by decide) rfl rfl (by decide)
+    (by decide) (by decide)
 
 end FG
